@@ -66,10 +66,13 @@ def vary(tokens, rng):
 
 class PROP(PropCheck):
     id = "C06"
-    theorems = ["C06_keywords_both_cases", "C06_end_set_is_reference", "C06_trivia_produces_no_token", "C06_newline_after_ender_terminates", "C06_semicolon_is_terminator"]
+    theorems = ["C06_keywords_both_cases", "C06_end_set_is_reference", "C06_trivia_produces_no_token", "C06_newline_after_ender_terminates", "C06_semicolon_is_terminator",
+                "C06_lex_render", "C06_layouts_same_views", "C06_keyword_case_same_view", "C06_layout_example", "C06_parse_view",
+                "C06_eval_span_invariant", "C06_layout_never_changes_meaning", "C06_same_views_same_meaning"]
+    audit_modules = ["C06", "C06b", "C06c", "C06d", "C06e"]
     coq_imports = ["Obs"]
     model_targets = ["theories/Obs.vo"]
-    prop_targets = ["theories/Props/C06.vo"]
+    prop_targets = ["theories/Props/C06.vo", "theories/Props/C06b.vo", "theories/Props/C06c.vo", "theories/Props/C06d.vo", "theories/Props/C06e.vo"]
     harness_mode = "run"
     trusted_base = [
         "Coq 8.16.1 kernel and bytecode VM",
@@ -83,7 +86,7 @@ class PROP(PropCheck):
             "independent case flip per keyword; 1 canonical + 3 variants per program. non-trivial = distinct variant differing from its canonical text")
 
     def cases(self, rng, tier, scale=1):
-        nb = (220 if tier == "quick" else 8000) * scale
+        nb = (220 if tier == "quick" else 1500) * scale
         bases = []
         for _ in range(nb):
             g = S.Sem(rng, dict(trace=0.2, err=0.03, lists=0.2, calls=0.4, ctl=0.7), maxd=rng.randint(1, 3))
